@@ -8,6 +8,7 @@ import (
 	"bytes"
 	"fmt"
 	"sort"
+	"strconv"
 	"strings"
 )
 
@@ -229,6 +230,58 @@ func deriveCmdLine(t *Trans) *Derived {
 			impl = "ok " + id
 		}
 		line := fmt.Sprintf("cmd.commit %s %s %s %s %s %s %s %d %s", entriesOut(pre.Index), snapS, brS, anyB, cl, cg, unix, t.TZ, hx([]byte(msg)))
+		return &Derived{Line: line, Impl: impl}
+	case "log":
+		// goit log [-n k]: the model walks the stored commit objects from HEAD's commit
+		k := int64(5) // the default is a regenerated fact (FactsCheck: log default)
+		switch {
+		case len(t.Args) == 1:
+		case len(t.Args) == 3 && t.Args[1] == "-n":
+			v, err := strconv.ParseInt(t.Args[2], 10, 64)
+			if err != nil {
+				return nil
+			}
+			k = v
+		default:
+			return nil
+		}
+		hb, _ := pre.headBranch()
+		raw, has := pre.Branches[hb]
+		anyB := "0"
+		if len(pre.Branches) > 0 {
+			anyB = "1"
+			if !has {
+				return nil
+			}
+		}
+		var objs []string
+		var cids []string
+		for id := range pre.Objects {
+			cids = append(cids, id)
+		}
+		sort.Strings(cids)
+		for _, id := range cids {
+			if x := pre.Objects[id]; x != nil && x.OK && x.Kind == "commit" {
+				objs = append(objs, id+"="+hx(objContent("commit", x.Data)))
+			}
+		}
+		obS := "-"
+		if len(objs) > 0 {
+			obS = strings.Join(objs, ";")
+		}
+		hd := "-"
+		if has {
+			hd = string(raw)
+		}
+		line := fmt.Sprintf("cmd.log %s %s %d %s", anyB, hd, k, obS)
+		impl := "err"
+		if t.Res.Class == "ok" {
+			var ids []string
+			for _, g := range parseLogOut(t.Res.Stdout) {
+				ids = append(ids, g.ID)
+			}
+			impl = "ok " + listOut(ids)
+		}
 		return &Derived{Line: line, Impl: impl}
 	case "reset":
 		// goit reset [--soft|--mixed|--hard] HEAD@{n}: the model decides mode, position, target commit and the
